@@ -341,7 +341,7 @@ def load_known_findings():
 
 
 def write_replay(prop_id, payload):
-    REPLAY_DIR.mkdir(exist_ok=True)
+    REPLAY_DIR.mkdir(parents=True, exist_ok=True)
     h = case_hash(payload)
     path = REPLAY_DIR / f"{prop_id}-{h}.json"
     path.write_text(json.dumps(payload, indent=1, sort_keys=True, default=str))
